@@ -391,3 +391,9 @@ func verifPumpHistory() {
 // Pause / unpause over HTTP have exactly their stated effect whatever the names and extra
 // arguments look like (shared with C10).
 func VerifC03_PauseEndpoints() { verifrt.Atomic(verifC10Admin) }
+
+// The RDY count reaches the range check through the decimal parser: "RDY n is refused above
+// max-rdy-count" holds for numbers of ANY length only if the parser never hands back a wrapped
+// value (RDY 2^64+1 must not be honoured as RDY 1). The parser's inductive loop-step lemma
+// (c04.go) is therefore part of this property's check too.
+func VerifC03_RdyCountParserLoopStep() { VerifC04_Base10LoopStep() }
